@@ -191,7 +191,7 @@ func c07Gen(t *rapid.T, tier Tier) interface{} {
 		c.Src = rapid.SampledFrom([]string{"data:", "data:,", "data:;base64,", "data:text/plain;base64,", "data:text/plain;charset=", "data:image/png;base64,AAAA", "DATA:,x", "data:;;;,", "data:text/html;charset=utf-8;base64,", "http://", "file://", "file:///nonexistent", "//x", ":", "%", "a%zz", "data:,%", "data:,%f", "data:;base64,%%%", "data:;base64,====", "data:a/b;c=\"d,e\",f", "#", "?", ""}).Draw(t, "u") +
 			rapid.SampledFrom([]string{"", "a", "%41", "%", "%zz", "%4G", "%g4", "abc%2zdef", "%a%41", "%C3%A9", "==", "\x00", "é", " ", ",", ";", "/../..", "\\"}).Draw(t, "us") + rapid.StringN(0, 4, -1).Draw(t, "ur")
 	case "htmlattr":
-		val := rapid.SampledFrom([]string{"", "0", "-1", "1", "2", "3", "1000", "99999999999999999999", "1e9", "١", " 2 ", "2x", "x", "+2", "-0", "2.5", "\x00", "65535", "1000000"}).Draw(t, "av")
+		val := rapid.SampledFrom([]string{"", "0", "-1", "1", "2", "3", "1000", "99999999999999999999", "1e9", "١", " 2 ", "2x", "x", "+2", "-0", "2.5", "\x00", "65535", "1000000", "010", "0012", "0x3", "0b11", "0o7", "1_0", "3e0"}).Draw(t, "av")
 		val2 := rapid.SampledFrom([]string{"", "0", "-1", "2", "99999999999", "x", "3"}).Draw(t, "av2")
 		c.Aux = val + "|" + val2
 		c.Src = rapid.SampledFrom([]string{
@@ -403,7 +403,25 @@ func c07Check(ci interface{}) Verdict {
 			if err != nil {
 				return Verdict{Excluded: "html-rejected", Labels: labels}
 			}
-			c07BuildBoxesHints(h, hints)
+			root := c07BuildBoxesHints(h, hints)
+			if strings.HasPrefix(c.Src, "<table><tr><td colspan=") {
+				// the value read is the decimal integer the attribute spells (after trimming white space), clamped
+				// to 1..1000; anything else is ignored (span 1)
+				val := strings.SplitN(c.Aux, "|", 2)[0]
+				var first *boxes.TableCellBox
+				wr.WalkBoxes(root, func(b boxes.Box) bool {
+					if cell, ok := b.(*boxes.TableCellBox); ok && first == nil {
+						first = cell
+					}
+					return first == nil
+				})
+				if first != nil {
+					labels = append(labels, "colspan-read")
+					if want := c09SpanAttr(val, 1, 1000); first.Colspan != want {
+						return Verdict{Sig: "htmlattr:colspan-value", Msg: fmt.Sprintf("colspan=%q is read as %d, the attribute spells %d (decimal digits only; other spellings are ignored)", val, first.Colspan, want), Labels: labels}
+					}
+				}
+			}
 		}
 		nt = true
 	}
